@@ -282,8 +282,10 @@ func (h *hist) checkGarbage(final bool) {
 	h.r.Count("garbage_checks", 1)
 	if garbage > 0 {
 		key := "garbage-left"
-		if h.leakExplainsAll(reach) {
+		if h.leakExplainsAll(reach, func(b *cm.Block) bool { return b.LeakShape }) {
 			key = garbageLeakShapeKey
+		} else if h.leakExplainsAll(reach, func(b *cm.Block) bool { return b.LeakShape || b.RemovedDirty }) {
+			key = garbageRemovedDirtyKey
 		}
 		hist := map[string][]string{}
 		for _, sh := range sample {
@@ -301,8 +303,15 @@ func (h *hist) checkGarbage(final bool) {
 // obsolete hashes never reach the eviction waiting list.
 const garbageLeakShapeKey = "garbage shape=storage-changed+account-removed+re-created-with-storage-in-one-block"
 
+// garbageRemovedDirtyKey is the witness class of a second leak this monitor found: inside ONE block the storage of an
+// account is changed and brought back to a committed data-trie root (slot v1 -> v2 -> v1 with a SaveAccount each) and
+// the account is then removed. removeDataTrie lists the nodes of the committed data trie as obsolete, the cached
+// data trie lists the re-created (identical) nodes as new, and removeDuplicatedKeys cancels the two against each
+// other: the nodes of the removed account's data trie are never pruned.
+const garbageRemovedDirtyKey = "garbage shape=storage-changed-back-to-committed-root+account-removed-in-one-block"
+
 // leakExplainsAll tells whether every garbage node was last dropped, on the current chain, by a block with that shape
-func (h *hist) leakExplainsAll(reach map[string]struct{}) bool {
+func (h *hist) leakExplainsAll(reach map[string]struct{}, shape func(b *cm.Block) bool) bool {
 	onChain := map[string]*cm.Block{}
 	for _, b := range h.w.Chain {
 		onChain[string(b.Root)] = b
@@ -328,7 +337,7 @@ func (h *hist) leakExplainsAll(reach map[string]struct{}) bool {
 				dropper = b
 			}
 		}
-		if dropper == nil || !dropper.LeakShape {
+		if dropper == nil || !shape(dropper) {
 			all = false
 		}
 		return true
@@ -512,7 +521,7 @@ func (h *hist) rollback() {
 // runDirectedLeak replays, through the same oracles, the minimal witness of the garbage shape found by this monitor:
 // block 1 gives A2 one slot; block 2 deletes the slot, removes A2 and re-creates it with another slot; everything
 // is finalized with pruning never blocked; the old data-trie node of A2 must be gone afterwards.
-func runDirectedLeak(r *vk.Run, c *vk.Case) {
+func runDirectedLeak(r *vk.Run, c *vk.Case, variant int) {
 	env, err := cm.NewEnv(cm.EnvConfig{MaxTrieLevelInMem: 5, EwlCache: 3, PruningBufferLen: 1000, QueueSize: 0, MaxSnapshots: 2})
 	if err != nil {
 		r.Inconclusive("environment construction failed: " + err.Error())
@@ -530,6 +539,10 @@ func runDirectedLeak(r *vk.Run, c *vk.Case) {
 		{{Addr: 2, Key: "k1", Val: ""}, {Addr: 2, Remove: true}, {Addr: 2, Key: "k0", Val: "v0"}},
 		{{Addr: 1, Key: "k0", Val: "v1"}},
 	}
+	if variant == 1 {
+		// second leak: block 2 changes A2's slot v1 -> v2 -> v1 (one SaveAccount each) and removes A2
+		scripts[2] = []cm.ScriptOp{{Addr: 2, Key: "k1", Val: "v2"}, {Addr: 2, Key: "k1", Val: "v1"}, {Addr: 2, Remove: true}}
+	}
 	for i, sc := range scripts {
 		parent := ""
 		if len(h.w.Chain) > 0 {
@@ -540,7 +553,8 @@ func runDirectedLeak(r *vk.Run, c *vk.Case) {
 			r.Inconclusive("directed leak witness: commit failed: " + errC.Error())
 			return
 		}
-		b.LeakShape = i == 2
+		b.LeakShape = i == 2 && variant == 0
+		b.RemovedDirty = i == 2
 		h.op(fmt.Sprintf("commit h=%d root=%s [%s]", b.Height, cm.Short(b.Root), b.Desc))
 		h.recordNodes(b, parent)
 		h.checkLive(false)
@@ -737,9 +751,9 @@ func main() {
 	)
 	r.MinShapes(20)
 	n := r.N(300, 10000)
-	r.Parallel(n+1, func(c *vk.Case) {
-		if c.Idx == n {
-			runDirectedLeak(r, c) // one scripted case
+	r.Parallel(n+2, func(c *vk.Case) {
+		if c.Idx >= n {
+			runDirectedLeak(r, c, c.Idx-n) // two scripted cases
 			return
 		}
 		runHistory(r, c)
